@@ -1,7 +1,8 @@
 (* C04 driver: the extracted T.81 specification model.
    dec <hex>      parse + decode a JPEG stream given as hex
    file <path>    same, stream read from a file
-   emit <ints>    build a stream with the spec writer (see checks/C04.py for the format)
+   emit <ints>    build a sequential stream with the spec writer (see checks/C04.py for the format)
+   lemit <ints>   build a lossless (SOF3) stream with the spec writer
    Result lines:  ok sof=<n> nc=<k> warn=0 | w h c.. | w h c.. ; Q q0..q63 ; Q ..   (decoded; tables in natural order)
                   lossless sof=3 nc=<k> warn=0 | w h s.. | ..                        (Annex H samples)
                   parsed sof=<n>                                     (valid syntax, process not decoded)
@@ -51,7 +52,7 @@ let dec_bytes bs =
       print_endline (Buffer.contents b)
 let hex_of bs =
   let b = Buffer.create 4096 in List.iter (fun z -> Buffer.add_string b (Printf.sprintf "%02x" (int_of_z z))) bs; Buffer.contents b
-let emit_line toks =
+let emit_line lossless toks =
   let a = Array.of_list (List.map int_of_string toks) in
   let pos = ref 0 in
   let next () = let v = a.(!pos) in incr pos; v in
@@ -60,33 +61,48 @@ let emit_line toks =
   let p = nz () in let y = nz () in let x = nz () in
   let nc = next () in
   let comps = rep nc (fun () -> let c = nz () in let h = nz () in let v = nz () in let tq = nz () in (((c, h), v), tq)) in
-  let coefs = rep nc (fun () -> let nb = next () in rep nb (fun () -> rep 64 nz)) in
-  let ni = next () in
-  let items = rep ni (fun () ->
-    let kind = next () in let fill = nat_of_int (next ()) in
-    match kind with
-    | 0 -> let k = next () in
-      let seg = (match k with
-        | 1 -> let nt = next () in SegDQT (rep nt (fun () -> let pq = nz () in let tq = nz () in let q = rep 64 nz in ((pq, tq), q)))
-        | 2 -> let nt = next () in SegDHT (rep nt (fun () -> let tc = nz () in let th = nz () in let cnt = rep 16 nz in
-                                                     let nv = next () in let vals = rep nv nz in (((tc, th), cnt), vals)))
-        | 3 -> SegDRI (nz ())
-        | 4 -> let n = nz () in let l = next () in SegAPP (n, rep l nz)
-        | _ -> let l = next () in SegCOM (rep l nz)) in
-      IMisc (fill, seg)
-    | 1 -> IFrame (fill, nz ())
-    | _ -> let ns = next () in
-      let sc = rep ns (fun () -> let c = nz () in let td = nz () in let ta = nz () in ((c, td), ta)) in
-      let nr = next () in let rf = rep nr (fun () -> nat_of_int (next ())) in
-      IScan (fill, sc, rf)) in
-  let ef = nat_of_int (next ()) in
-  let im = { im_p = p; im_y = y; im_x = x; im_comps = comps; im_coefs = coefs } in
-  match t81_emit { ch_items = items; ch_eoi_fill = ef } im with
+  let seg () =
+    let k = next () in
+    match k with
+    | 1 -> let nt = next () in SegDQT (rep nt (fun () -> let pq = nz () in let tq = nz () in let q = rep 64 nz in ((pq, tq), q)))
+    | 2 -> let nt = next () in SegDHT (rep nt (fun () -> let tc = nz () in let th = nz () in let cnt = rep 16 nz in
+                                                 let nv = next () in let vals = rep nv nz in (((tc, th), cnt), vals)))
+    | 3 -> SegDRI (nz ())
+    | 4 -> let n = nz () in let l = next () in SegAPP (n, rep l nz)
+    | _ -> let l = next () in SegCOM (rep l nz) in
+  let scomps () = let ns = next () in rep ns (fun () -> let c = nz () in let td = nz () in let ta = nz () in ((c, td), ta)) in
+  let fills () = let nr = next () in rep nr (fun () -> nat_of_int (next ())) in
+  let res =
+    if lossless then begin
+      let samples = rep nc (fun () -> let n = next () in rep n nz) in
+      let ni = next () in
+      let items = rep ni (fun () ->
+        let kind = next () in let fill = nat_of_int (next ()) in
+        match kind with
+        | 0 -> let s = seg () in LMisc (fill, s)
+        | 1 -> LFrame fill
+        | _ -> let sc = scomps () in let psv = nz () in let pt = nz () in let rf = fills () in LScan (fill, sc, psv, pt, rf)) in
+      let ef = nat_of_int (next ()) in
+      t81_emit_lossless items ef { li_p = p; li_y = y; li_x = x; li_comps = comps; li_samples = samples }
+    end else begin
+      let coefs = rep nc (fun () -> let nb = next () in rep nb (fun () -> rep 64 nz)) in
+      let ni = next () in
+      let items = rep ni (fun () ->
+        let kind = next () in let fill = nat_of_int (next ()) in
+        match kind with
+        | 0 -> let s = seg () in IMisc (fill, s)
+        | 1 -> IFrame (fill, nz ())
+        | _ -> let sc = scomps () in let rf = fills () in IScan (fill, sc, rf)) in
+      let ef = nat_of_int (next ()) in
+      t81_emit { ch_items = items; ch_eoi_fill = ef } { im_p = p; im_y = y; im_x = x; im_comps = comps; im_coefs = coefs }
+    end in
+  match res with
   | None -> print_endline "fail"
   | Some bs -> print_endline ("hex " ^ hex_of bs)
 let () = iter_lines (fun line ->
   match words line with
   | [ "dec"; h ] -> (try dec_bytes (bytes_of_hex h) with Failure _ -> print_endline "reject-syntax")
   | [ "file"; p ] -> dec_bytes (bytes_of_file p)
-  | "emit" :: toks -> (try emit_line toks with Invalid_argument _ | Failure _ -> print_endline "fail")
+  | "emit" :: toks -> (try emit_line false toks with Invalid_argument _ | Failure _ -> print_endline "fail")
+  | "lemit" :: toks -> (try emit_line true toks with Invalid_argument _ | Failure _ -> print_endline "fail")
   | _ -> print_endline "?")
